@@ -340,6 +340,8 @@ def target_name(eng, target):
         return d[1].name, z3.IntVal(0)
     if target.ty.kind == 'fn' and d[0] == 'coro':
         return target_name(eng, V(FN, d[1]))
+    if target.ty.kind == 'opaque' and target.ty.args[0] == 'Handler':
+        return 'handler', target.t
     raise core.EngineError('unsupported spawn target %r' % (d[0],))
 
 
@@ -639,3 +641,25 @@ def _file_read(eng, st, recv, args, kwargs, line):
 
 
 LIBM[('opaque:File', 'read')] = _file_read
+
+
+def _clientlist_remove(eng, st, recv, args, kwargs, line):
+    yield st, VNONE
+    yield st.copy(), R('ValueError', line)
+
+
+LIBM[('opaque:ClientList', 'remove')] = _clientlist_remove
+LIBM[('opaque:ClientList', 'append')] = _log
+
+url_scheme = z3.Function('url_scheme', z3.StringSort(), z3.StringSort())
+url_netloc = z3.Function('url_netloc', z3.StringSort(), z3.StringSort())
+url_query = z3.Function('url_query', z3.StringSort(), z3.StringSort())
+url_path = z3.Function('url_path', z3.StringSort(), z3.StringSort())
+
+
+@libfn('urllib.parse.urlparse')
+def _urlparse(eng, st, args, kwargs, line):
+    """urlparse(u): a record of the parts (functions of u; scheme lower-cased - assumed)."""
+    u = args[0].t
+    yield st, V(REC, {'scheme': vstr(url_scheme(u)), 'netloc': vstr(url_netloc(u)),
+                      'path': vstr(url_path(u)), 'query': vstr(url_query(u))})
